@@ -71,6 +71,8 @@ class LoopSpec:
             self._oblige(ip, env, k, "preserved")
             raise PathEnd("stop")
         # j == n: after the loop
+        if hasattr(it, "pull") and hasattr(it, "pos"):
+            it.pos = it.n                     # an iterator that was looped over is exhausted
         if s.orelse:
             ip.exec_block(s.orelse, env)
 
